@@ -84,7 +84,7 @@ inductive Out (ρ ε α : Type)
   | fault (f : Fault)
   deriving Repr, DecidableEq
 
-def M (ρ ε α : Type) := ρ → Out ρ ε α
+abbrev M (ρ ε α : Type) := ρ → Out ρ ε α
 
 @[inline] def M.bind (m : M ρ ε α) (f : α → M ρ ε β) : M ρ ε β := fun s =>
   match m s with
